@@ -182,3 +182,48 @@ def get():
     if _server is not None and _server.pid == os.getpid():
         return _server
     return None
+
+
+# --------------------------------------------------------------------------- oracle helpers (used by scenario hooks)
+
+def describe_call(it, ev):
+    """Public-state description of a call's arguments as they are now (taken BEFORE the call).  None when unsupported."""
+    try:
+        dargs = [public.describe(it.L, it.resolve(x)) for x in ev.get('a', [])]
+        dkw = [(k, public.describe(it.L, it.resolve(x))) for k, x in sorted(ev.get('k', {}).items())]
+        return dargs, dkw
+    except public.Unsupported:
+        it.probe('fresh_unsupported')
+        return None
+
+
+def judge(it, i, ev, out, pending, oracle, sig):
+    """The same call on public-state clones of its arguments, in a process that has executed nothing else, must give the outcome
+    seen in this history."""
+    from .core import HarnessError
+    dargs, dkw = pending
+    fn = ev['fn']
+    if not out.ok and ('read-only' in str(out.exc) or isinstance(out.exc, MemoryError)):
+        return
+    srv = get()
+    if srv is None:
+        raise HarnessError('run asks for the pristine-process oracle but this process has no evaluator')
+    try:
+        mine = ('ok', public.describe(it.L, out.value)) if out.ok else ('exc', type(out.exc).__name__)
+    except public.Unsupported:
+        it.probe('fresh_unsupported')
+        return
+    ans = srv.ask(fn, dargs, dkw)
+    if ans[0] in ('unsupported', 'unfaithful'):
+        it.probe('fresh_' + ans[0])
+        return
+    it.probe('check:fresh')
+    it.fault('fresh_process')
+    if ans[0] != mine[0] or (ans[0] == 'exc' and ans[1] != mine[1]):
+        show = lambda a: a[0] + (':' + a[1] if a[0] == 'exc' else '')
+        it.violate(oracle, sig, '%s: %s in this history, %s on clones of the same arguments in a pristine process' % (fn, show(mine), show(ans)), i)
+    elif ans[0] == 'ok':
+        bad = public.same(mine[1], ans[1])
+        if bad:
+            it.violate(oracle, sig, '%s: the result in this history differs from the result of the same call on clones of the same '
+                       'arguments in a pristine process (%s)' % (fn, bad), i)
